@@ -92,9 +92,9 @@ def feed (b : B) (ws : List String) : B :=
       if b.envIdx == 0 then { x with aei := e } else if b.envIdx == 1 then { x with pei := e } else { x with fei := e }
     { b with inss := inss, envIdx := b.envIdx + 1 }
   | ["s", _, nm, len, lps, lpe, flg, hd, gd, xs, xe] =>
-    let (fl, fs, fb, o) := Sample.flagsOf (nat flg)
+    let (fl, flb, fs, fb, o) := Sample.flagsOf (nat flg)
     { b with smps := b.smps.push { name := parseHex nm, len := int len, lps := int lps, lpe := int lpe,
-                                   floop := fl, fsloop := fs, fsloopBidir := fb, other := o,
+                                   floop := fl, floopBidir := flb, fsloop := fs, fsloopBidir := fb, other := o,
                                    hasData := hd == "1", guardOK := gd == "1" }
              xtras := b.xtras.push { sus := int xs, sue := int xe } }
   | "seq" :: n :: rest => { b with m := { b.m with numSeq := nat n, seqData := pairsNI rest } }
